@@ -13,6 +13,14 @@ def pop? (tag : String) (s : Sexp) : Option (List (List Float)) := do
   let xs ← tagged? tag s
   xs.mapM floats?
 
+/-- `(dom (a b) ..)`: one pair = the same range in each of `dim` dimensions. -/
+def dom? (s : Sexp) (dim : Nat) : Option (List (Float × Float)) := do
+  let xs ← tagged? "dom" s
+  let ps ← xs.mapM fun
+    | .list [a, b] => do pure ((← float? a), (← float? b))
+    | _ => none
+  pure (match ps with | [p] => List.replicate dim p | _ => ps)
+
 def ofPop (tag : String) (p : List (List Float)) : Sexp := .list (.atom tag :: p.map ofFloats)
 
 /-- Relative tolerance 1e-9; bit-equal values (incl. NaN patterns) are equal. -/
@@ -51,26 +59,26 @@ def applyOp (op : String) (dom : List (Float × Float)) (pop : List (List Float)
 def verdict (agree holds : Bool) (cls : String) (model : Sexp) : Verdict :=
   { agree, holds, cls := if holds then "-" else cls, model }
 
-/-- First failing clause of the repair property on the implementation's output. -/
-def repairClass (a b : Float) (inp r1 r2 : List (List Float)) : String :=
-  let slack := 4 * 2.220446049250313e-16 * (max a.abs b.abs)
+/-- First failing clause of the repair property on the implementation's output; every coordinate
+is judged against the range of ITS OWN dimension. -/
+def repairClass (dom : List (Float × Float)) (inp r1 r2 : List (List Float)) : String :=
+  let slack := fun (d : Float × Float) => 4 * 2.220446049250313e-16 * (max d.1.abs d.2.abs)
   let sameShape := inp.map List.length == r1.map List.length
   if !sameShape then "dimension"
   else if r1.any (·.any Float.isNaN) then "nan"
-  else if r1.any (·.any fun x => !(a - slack ≤ x && x ≤ b + slack)) then "out-of-bounds"
-  else if (inp.zip r1).any (fun (s, t) => (s.zip t).any fun (x, y) => a ≤ x && x ≤ b && x.toBits != y.toBits)
+  else if r1.any (fun s => (s.zip dom).any fun (x, d) => !(d.1 - slack d ≤ x && x ≤ d.2 + slack d)) then "out-of-bounds"
+  else if (inp.zip r1).any (fun (s, t) => ((s.zip t).zip dom).any fun ((x, y), d) =>
+      d.1 ≤ x && x ≤ d.2 && x.toBits != y.toBits)
     then "moved-inside"
   else if !bitEqPop r1 r2 then "not-idempotent"
   else "-"
 
 def bnd (args : List Sexp) (impl : Sexp) : Option Verdict :=
   match args with
-  | [.atom op, _kind, a, b, _seed, pop] => do
-    let a ← float? a
-    let b ← float? b
+  | [.atom op, _kind, domS, _seed, pop] => do
     let inp ← pop? "pop" pop
     let dim := inp.foldl (fun m s => max m s.length) 0
-    let dom := List.replicate dim (a, b)
+    let dom ← dom? domS dim
     -- the script is part of the implementation-side observation (twin generator)
     let script : List Float := match impl with
       | .list [_, _, w] => ((tagged? "w" w).bind fun xs => xs.mapM float?).getD []
@@ -91,7 +99,7 @@ def bnd (args : List Sexp) (impl : Sexp) : Option Verdict :=
       let agree := match m1, m2 with
         | some (p1, _), some (p2, _) => feqPop p1 r1 && feqPop p2 r2
         | _, _ => false
-      let cls := repairClass a b inp r1 r2
+      let cls := repairClass dom inp r1 r2
       pure (verdict agree (cls == "-") cls modelS)
     | _ => none
   | _ => none
@@ -134,18 +142,16 @@ def init (args : List Sexp) (impl : Sexp) : Option Verdict :=
       | "empty", _ =>
         let ok := frame && inds.isEmpty
         pure (verdict ok ok (if !frame then "stack" else "count") (.atom "ok"))
-      | "spread", [a, b] => do
-        let a ← float? a
-        let b ← float? b
+      | "spread", [domS] => do
+        let dom ← dom? domS dim
         let sols ← inds.mapM fun (_, s) => floats? s
-        let dom := List.replicate dim (a, b)
         let model := randomSpread dom n (fun i j => (sols.getD i []).getD j (0.0 / 0.0))
-        -- legality of the witness = `gen_range(a..b)`'s contract (half-open)
-        let legal := sols.all (·.all fun x => a ≤ x && x < b)
+        -- legality of the witness = `gen_range(a_j..b_j)`'s contract (half-open), per dimension
+        let legal := sols.all fun s => (s.zip dom).all fun (x, d) => d.1 ≤ x && x < d.2
         let agree := bitEqPop model sols && legal && frame && uneval
         let cls := if !frame then "stack" else if sols.length != n then "count"
           else if sols.any (·.length != dim) then "dimension" else if !uneval then "evaluated"
-          else if sols.any (·.any fun x => !(a ≤ x && x ≤ b)) then "out-of-bounds" else "-"
+          else if sols.any (fun s => (s.zip dom).any fun (x, d) => !(d.1 ≤ x && x ≤ d.2)) then "out-of-bounds" else "-"
         pure (verdict agree (cls == "-") cls (ofPop "pop" model))
       | "perm", _ => do
         let sols ← inds.mapM fun (_, s) => nats? s
